@@ -18,6 +18,7 @@ Lay(s) == [k \in DOMAIN segs[s] |->
              [st |-> segs[s][k].st, pq |-> segs[s][k].pq,
               blocks |-> [j \in DOMAIN segs[s][k].blocks |->
                             [ids |-> segs[s][k].blocks[j].ids,
+                             lo |-> BlockLo(segs[s][k].blocks[j]), hi |-> BlockHi(segs[s][k].blocks[j]),
                              dx |-> Dict(segs[s][k].blocks[j], "x"),
                              dt |-> Dict(segs[s][k].blocks[j], "t")]]]]
 Obs == [s \in Streams |-> [must |-> Flushed(s), may |-> OpenIds(s),
